@@ -97,8 +97,8 @@ PROPS = {
         "budget_s": (25, 300),
         "exhaustive_key": "log:exhaustive_opcodes",
         "min_nontrivial": {"quick": 5000, "thorough": 50000},
-        "must_observe": ["log:exhaustive_opcodes", "log:overflow_corner_cases", "log:dialect_neighbourhood_opcodes", "expected_fail:product exceeds 2^32-1", "expected_fail:reserved", "expected_fail:pair argument", "expected_fail:cost", "expected_fail:strict mode"],
-        "rule": "EXHAUSTIVE 1- and 2-byte opcodes x 6 argument shapes x both cost models through op_unknown; directed overflow corner (two ~800 KB operands, multiplier chosen so that the true product is >= 2^64); random 1-8 byte opcodes (ffff prefixes, leading zeros, "
+        "must_observe": ["log:exhaustive_opcodes", "log:overflow_corner_cases", "log:dialect_neighbourhood_opcodes", "log:product_boundary_cases", "expected_fail:product exceeds 2^32-1", "expected_fail:reserved", "expected_fail:pair argument", "expected_fail:cost", "expected_fail:strict mode"],
+        "rule": "EXHAUSTIVE 1- and 2-byte opcodes x 6 argument shapes x both cost models through op_unknown; directed overflow corner (two ~800 KB operands, multiplier chosen so that the true product is >= 2^64); products exactly at, one below and one above 2^32-1 (base costs that divide 3*5*17*257*65537 with the matching multiplier, neighbouring lengths and multipliers); random 1-8 byte opcodes (ffff prefixes, leading zeros, "
                 "5/6-byte) x 0-12 atoms incl. multi-MB operands and pairs at each position x budgets x flag sets, through op_unknown, ChiaDialect::op and RuntimeDialect::op (opcodes the dialect assigns are skipped); through both dialects additionally the whole last-byte neighbourhood of the two 4-byte secp opcodes and the adjacent multipliers, every 1-byte opcode and the 2- and 3-byte zero-padded spellings of every byte, each with no arguments, atoms, a valid signature triple and a corrupted one, lenient and strict. Oracle: pymon/c09check.py evaluates the published rule with "
                 "unbounded integers: nil + (multiplier+1)*base; failure for empty/ffff/>5-byte opcodes, pair arguments, base > budget, product > 2^32-1, strict mode. Non-trivial: multi-byte opcode or non-empty argument list.",
         "assumptions": COMMON_ASSUMPTIONS,
